@@ -108,9 +108,8 @@ func truncate(s *slip.Scope, f slip.Object, args slip.List, depth int) slip.Valu
 			zq big.Int
 		)
 		_, _ = zq.QuoRem((*big.Int)(tn), (*big.Int)(div.(*slip.Bignum)), &zr)
-		q = (*slip.Bignum)(&zq)
-		r = (*slip.Bignum)(&zr)
-
+		q = reduceInteger(&zq)
+		r = reduceInteger(&zr)
 	case *slip.Ratio:
 		var (
 			zr big.Rat
@@ -124,8 +123,8 @@ func truncate(s *slip.Scope, f slip.Object, args slip.List, depth int) slip.Valu
 		_ = zb.SetInt(&bi)
 		_ = zp.Mul(&zb, (*big.Rat)(div.(*slip.Ratio)))
 		_ = zr.Sub((*big.Rat)(tn), &zp)
-		q = (*slip.Bignum)(&bi)
-		r = (*slip.Ratio)(&zr)
+		q = reduceInteger(&bi)
+		r = reduceRational(&zr)
 	case slip.Complex:
 		slip.TypePanic(s, depth, "number", tn, "real")
 	}
